@@ -246,6 +246,77 @@ def s_scenarios():
     return out
 
 
+def cfg_long():
+    """INBOX(70): a FETCH of all of it to a client that takes 1.8 s per response lasts longer than the 120 s command watchdog."""
+    from .common import cfg_basic
+
+    return cfg_basic(PROP, 70, others=("other",), name="c06-long")
+
+
+def work_long(unit):
+    """Commands that make steady progress for more than 120 s (a slowly reading peer): the watchdog must be pushed back, the answer is the
+    command's own."""
+    fails, n = [], 0
+    for cmd in unit:
+        st = HState(dict(cfg_long(), prelude=[{"s": "A", "op": "select", "m": "INBOX"}]))
+        try:
+            s = st.sess("A")
+            s.on_resp = None
+            st.failures.clear()
+            s.writer.drain_mode = 7
+            tag = s.new_tag()
+            t0 = st.w.loop.time()
+            s.send(cmd, tag)
+            st.w.loop.run_until(lambda: s.done_or_closed(tag), horizon=t0 + 400)
+            s.writer.drain_mode = 0
+            st.w.loop.settle()
+            n += 1
+            r = s.tagged(tag)
+            dt = st.w.loop.time() - t0
+            rp = {"driver": "c06-long", "cmd": cmd}
+            if r is None:
+                fails.append(Failure(PROP, "C06.no-tagged-reply", {"setup": "slow-reader-long", "cmd": shape(cmd)}, rp, "tagged reply", None))
+            elif r.typ != "OK":
+                fails.append(Failure(PROP, "C06.answered-by-watchdog" if b"timed out" in r.raw else "C06.long-command-refused", {"setup": "slow-reader-long", "cmd": shape(cmd)},
+                                     rp, "OK after %d responses" % 70, f"{r.raw[:80]!r} after {dt:.0f} s"))
+        finally:
+            st.close()
+    return fails, n, set()
+
+
+def work_preauth(_unit):
+    """Before login (handled by the front-end itself): every command gets exactly one tagged reply, or the connection is told BYE."""
+    from ..frontend import FrontWorld
+
+    fails, n = [], 0
+    cmds = ["NOOP", "CAPABILITY", "IDLE", "LOGOUT", "SELECT INBOX", "FETCH 1 (FLAGS)", "BOGUS", "LOGIN alice wrongpw", "ID NIL", "NAMESPACE", "CHECK", "UID FETCH 1 (UID)",
+            "STATUS INBOX (MESSAGES)", "AUTHENTICATE PLAIN", "STARTTLS", "UNSELECT", "LIST \"\" \"*\""]
+    for first in cmds:
+        fw = FrontWorld()
+        try:
+            s = fw.imap_client()
+            for k, c in enumerate([first, "NOOP"]):
+                tag = f"p{k}"
+                out = s.line(f"{tag} {c}".encode())
+                n += 1
+                closed = s.task.done() or s.writer.closed
+                tagged = [ln for ln in out.split(b"\r\n") if ln.startswith(tag.encode() + b" ")]
+                if b"+ " in out and not tagged and not closed:
+                    # a continuation request: the client answers it (DONE for IDLE, '*' cancels an AUTHENTICATE exchange)
+                    out += s.line(b"DONE" if c == "IDLE" else b"*")
+                    tagged = [ln for ln in out.split(b"\r\n") if ln.startswith(tag.encode() + b" ")]
+                    closed = s.task.done() or s.writer.closed
+                if len(tagged) != 1 and not (closed and b"* BYE" in out) and not (c == "LOGOUT" and b"BYE" in out):
+                    fails.append(Failure(PROP, "C06.no-tagged-reply" if not tagged else "C06.answered-twice", {"setup": "before-login", "cmd": shape(c), "after": shape(first) if k else None},
+                                         {"driver": "c06-preauth", "first": first}, "exactly one tagged reply", out[:200].decode("latin-1")))
+                    break
+                if closed:
+                    break
+        finally:
+            fw.close()
+    return fails, n, set()
+
+
 def run(tier, seed, jobs) -> Result:
     cfg()
     cmds = commands()
@@ -258,6 +329,13 @@ def run(tier, seed, jobs) -> Result:
         res.failures.extend(f)
         n += k
         outcomes |= oc
+    cfg_long()
+    for f, k, _ in pmap(work_long, [["FETCH 1:* (FLAGS)"], ["UID FETCH 1:* (UID BODY.PEEK[HEADER.FIELDS (SUBJECT)])"], ["UID SEARCH ALL"], ["COPY 1:* other"]], jobs):
+        res.failures.extend(f)
+        n += k
+    f, k, _ = work_preauth(None)
+    res.failures.extend(f)
+    n += k
     s_exec = s_steps = 0
     per = []
     for sc in s_scenarios():
@@ -277,13 +355,18 @@ def run(tier, seed, jobs) -> Result:
                        "six DELETE/RENAME-versus-queued-command scenarios; every execution is an implementation trace",
     }
     res.assumptions = ["'promptly' = under 5 s of virtual time and never through the 120 s command watchdog",
-                       "a client in IDLE sends DONE before its next command (the property is about the IDLE command itself)",
+                       "cells 'idling-impatient': a command sent while IDLE is active, without DONE; long part: four commands to a peer that takes 1.8 s per response on INBOX(70) "
+                       "(more than 120 s of steady progress); before-login part: 17 commands through the front-end, each followed by NOOP",
                        "malformed lines are covered by C08; here one representative of each (BOGUS, FETCH, UID, UID NOOP)"]
     return res
 
 
 def replay(rec):
     rp = rec["replay"]
+    if rp.get("driver") == "c06-long":
+        return work_long([rp["cmd"]])[0]
+    if rp.get("driver") == "c06-preauth":
+        return [f for f in work_preauth(None)[0] if f.replay.get("first") == rp.get("first")]
     if rp.get("driver") == "c06":
         cmd = tuple(rp["cmd"]) if isinstance(rp["cmd"], list) else rp["cmd"]
         return work([(rp["setup"], cmd)])[0]
